@@ -62,7 +62,11 @@ func (r *zzRec) WriteHeader(s int) {
 	}
 }
 
-func HGate(opIdx int) {
+// HGate: mode 0: every scheme the operation mentions has symbolic presence and verdict; mode 1 / 2 (for
+// operations with many schemes): only the schemes at positions 0,1,6..9 and the last of the operation's
+// scheme list (= bit positions of its requirement masks) are symbolic, the others are absent (1) or present
+// and accepted (2).
+func HGate(opIdx, mode int) {
 	op := zzOps[opIdx]
 	n := zzNumSchemes
 	sec := &zzSec{verdict: make([]byte, n), calls: make([]int, n), keys: make([]string, n)}
@@ -73,10 +77,32 @@ func HGate(opIdx int) {
 			used[s] = true
 		}
 	}
+	// position of each scheme among the operation's schemes (order of first mention)
+	pos := make([]int, n)
+	np := 0
+	for i := range pos {
+		pos[i] = -1
+	}
+	for _, alt := range op.Alts {
+		for _, s := range alt {
+			if pos[s] < 0 {
+				pos[s] = np
+				np++
+			}
+		}
+	}
 	h := http.Header{}
 	for i := 0; i < n; i++ {
 		if !used[i] && i > 2 {
 			continue // unused schemes beyond the first three stay absent (keeps the 20-scheme cases small)
+		}
+		if mode != 0 && used[i] && !(pos[i] <= 1 || (pos[i] >= 6 && pos[i] <= 9) || pos[i] == np-1) {
+			present[i] = mode == 2 // fixed: absent (mode 1) or present and accepted (mode 2)
+			sec.verdict[i] = 0
+			if present[i] {
+				h["X-S"+itoa(i)] = []string{"k"}
+			}
+			continue
 		}
 		present[i] = zz.Bool()
 		v := zz.Byte()
